@@ -25,6 +25,7 @@ type HarnessResult struct {
 	Error      string                            `json:"error,omitempty"`
 	Violations []*violation                      `json:"violations,omitempty"`
 	Reached    map[string]map[string]interface{} `json:"reached"`
+	Expected   []string                          `json:"expected_markers,omitempty"`
 	Paths      int                               `json:"paths"`
 	States     int                               `json:"states"`
 	Instrs     int64                             `json:"instrs"`
@@ -239,6 +240,15 @@ func runAll(repo, verif string, pkgPats []string, hre, solver, tier string, time
 					m.Reached[k] = v
 				}
 			}
+			for _, x := range r.Expected {
+				dup := false
+				for _, y := range m.Expected {
+					dup = dup || x == y
+				}
+				if !dup {
+					m.Expected = append(m.Expected, x)
+				}
+			}
 			if r.Status == "error" || (r.Status == "violation" && m.Status == "ok") {
 				m.Status = r.Status
 				if r.Error != "" {
@@ -279,7 +289,7 @@ func runHarness(prog *ssa.Program, pkg *ssa.Package, fn *ssa.Function, solver, t
 	e := &Engine{c: ctx, sol: sol, prog: prog, finfo: map[*ssa.Function]*fnInfo{}, globals: map[*ssa.Global]int{},
 		inited: map[*ssa.Package]bool{}, vioSites: map[string]bool{}, reached: res.Reached, maxSteps: maxSteps,
 		deadline: t0.Add(time.Duration(timeout) * time.Second), verbose: verbose, funcsSeen: map[string]bool{},
-		harness: fn.Name(), tier: tier, symIdx: optSymIdx, symLen: optSymLen, noModel: optNoModel, shard: shard, ifShapes: map[*ssa.If]*ifShape{}, uniq: map[string]int{}, fnByName: map[string]*ssa.Function{}, noIfConv: optNoIfConv}
+		hpkg: pkg, harness: fn.Name(), tier: tier, symIdx: optSymIdx, symLen: optSymLen, noModel: optNoModel, shard: shard, ifShapes: map[*ssa.If]*ifShape{}, uniq: map[string]int{}, fnByName: map[string]*ssa.Function{}, noIfConv: optNoIfConv}
 	if os.Getenv("GOSMT_DEBUG") != "" {
 		e.dbgLabels = dbgLabelsG
 	}
@@ -295,6 +305,10 @@ func runHarness(prog *ssa.Program, pkg *ssa.Package, fn *ssa.Function, solver, t
 		res.Solver = e.sol.name
 		res.XChecked, res.XSecond = e.sol.XChecked, e.sol.XSecond
 		res.ModelOnly = e.usedModels
+		for x := range e.expected {
+			res.Expected = append(res.Expected, x)
+		}
+		sort.Strings(res.Expected)
 		for f := range e.funcsSeen {
 			if strings.Contains(f, "IrineSistiana") && !strings.Contains(f, "VerifH_") && !strings.Contains(f, "verifrt") {
 				res.Funcs = append(res.Funcs, f)
